@@ -12,7 +12,7 @@ from harness.steps import process_step
 
 EAGER = ["ack", "nack", "reject", "reschedule", "retry", "force_retry"]
 EXTRAS = ["plain", "set_result", "set_exception", "callback", "raising_callback"]
-BEHAVIOURS = ["return", "raise", "sleep_vs_timeout", "bad_payload", "failing_dependency", "bad_return"] + ["eager_" + e for e in EAGER]
+BEHAVIOURS = ["return", "raise", "sleep_vs_timeout", "bad_payload", "failing_dependency", "bad_return", "raise_unprintable"] + ["eager_" + e for e in EAGER]
 
 
 def h02_ladder(S):
@@ -45,6 +45,55 @@ def h02_ladder(S):
         S.check("no-result-when-disabled", o.result is None)
 
 
+def h02_rabbit_retry(S):
+    """RabbitMQ, zero-delay retry through the real Worker: the failed delivery is settled, the retry runs once,
+    the exhausted message is dead-lettered exactly once and nothing stays unacknowledged."""
+    import repid.data._parameters as P
+    from repid import Job, Router, Worker
+    from repid.converter import BasicConverter
+
+    confirm = [0, 3][S.pick("confirm_after_delivery", 2)]
+    succeed_on_retry = S.flag("retry_succeeds")
+    eager = S.flag("eager_retry")
+    runs = []
+    out = {}
+
+    async def main(loop):
+        w = World(backend="rabbit")
+        w.srv.confirm_turns = confirm
+        await w.open(record=True)
+        r = Router()
+        from repid import MessageDependency
+
+        @r.actor(converter=BasicConverter, retry_policy=lambda retry_number=1: real_timedelta(0))
+        async def job(m: MessageDependency):
+            runs.append(m.parameters.retries.already_tried)
+            if len(runs) == 1 or not succeed_on_retry:
+                if eager and len(runs) == 1:
+                    await m.retry(real_timedelta(0))
+                raise ValueError("x")
+
+        await Job("job", id_="m1", retries=1, _connection=w.conn).enqueue()
+        worker = Worker(routers=[r], handle_signals=[], _connection=w.conn, graceful_shutdown_time=1.0, messages_limit=2)
+        try:
+            await asyncio.wait_for(worker.run(), timeout=20)
+            out["returned"] = True
+        except asyncio.TimeoutError:
+            out["returned"] = False
+        await asyncio.sleep(Fraction(1, 2))
+        out["places"] = {i: sorted(p[0] for p in v) for i, v in w.places().items()}
+        out["ops"] = [c["op"] for c in w.rec.calls if c["id"] == "m1" and c["op"] != "enqueue"]
+
+    run_async(main)
+    S.cover("rabbit-retry")
+    S.check("worker-returns", out["returned"], info=f"runs={runs}")
+    S.check("attempt-counters", runs == [0, 1], info=str(runs))
+    S.check("one-disposition-per-delivery", out["ops"] == ["requeue", "ack" if succeed_on_retry else "nack"], info=str(out["ops"]))
+    want = [] if succeed_on_retry else ["dead"]
+    S.check("every-delivery-settled-final-place", out["places"].get("m1", []) == want,
+            info=f"confirm after delivery={bool(confirm)}: message is in {out['places'].get('m1')}, expected {want}")
+
+
 def h02_worker(S, eager_extras=False, backend="mem", tasks_limit=2):
     """Two messages through a real Worker.run(): message 1 misbehaves in every supported way."""
     import repid.data._parameters as P
@@ -63,6 +112,7 @@ def h02_worker(S, eager_extras=False, backend="mem", tasks_limit=2):
     S.assume(k <= N)
     recurring = S.flag("recurring")
     with_result = S.flag("store_result")
+    no_rb = with_result and not beh.startswith("eager_") and S.flag("results_broker_missing")
     d = S.real("duration", Fraction(1, 2), Fraction(3, 2)) if beh == "sleep_vs_timeout" else 0
     S.tag("behaviour", beh)
     S.tag("extra", extra)
@@ -75,7 +125,7 @@ def h02_worker(S, eager_extras=False, backend="mem", tasks_limit=2):
         raise RuntimeError("provider failed")
 
     async def main(loop):
-        w = World(results=True, backend=backend)
+        w = World(results=not no_rb, backend=backend)
         await w.open(record=True)
         r = Router()
         policy = lambda retry_number=1: real_timedelta(hours=1)  # noqa: E731
@@ -105,6 +155,15 @@ def h02_worker(S, eager_extras=False, backend="mem", tasks_limit=2):
                     m.add_callback(bad)
                 await getattr(m, action)()
                 cb_log.append("after-eager")   # must never run
+        elif beh == "raise_unprintable":
+            class Unprintable(Exception):
+                def __str__(self):
+                    raise RuntimeError("cannot render this exception")
+
+            @r.actor(name="first", converter=conv, retry_policy=policy)
+            async def first(i: int):
+                runs["m1"] += 1
+                raise Unprintable()
         elif beh == "bad_return":
             @r.actor(name="first", converter=conv, retry_policy=policy)
             async def first(i: int) -> int:
@@ -164,7 +223,7 @@ def h02_worker(S, eager_extras=False, backend="mem", tasks_limit=2):
         await asyncio.sleep(0.01 if backend == "mem" else 0.5)
         out["calls"] = list(w.rec.calls)
         out["places"] = w.places()
-        out["result"] = await w.rb.get_bucket("res1")
+        out["result"] = await w.rb.get_bucket("res1") if w.rb is not None else None
         out["task_errors"] = [repr(e)[:200] for e in loop.task_errors()]
 
     try:
@@ -206,7 +265,7 @@ def h02_worker(S, eager_extras=False, backend="mem", tasks_limit=2):
         invoked = 1
     elif beh in ("bad_payload", "failing_dependency"):
         want, invoked = ladder(True), 0
-    elif beh == "bad_return":
+    elif beh in ("bad_return", "raise_unprintable"):
         want, invoked = ladder(True), 1
     else:
         action = beh[len("eager_"):]
@@ -266,6 +325,12 @@ HARNESSES += [
         bounds={"as H02-worker": "on the real Redis broker/consumer over the fake server (quick: without the eager x extras product)"},
         functions=["connections/redis/message_broker.py:RedisMessageBroker.requeue", "connections/redis/message_broker.py:RedisMessageBroker.nack"],
         covers=["beh-return", "beh-raise", "beh-eager_reject"], stubs=["fake Redis server"]),
+    Harness(
+        name="H02-rabbit-retry", scenario=h02_rabbit_retry, workers=4,
+        bounds={"broker": "real RabbitMQ broker/consumer on the fake channel", "retry": "retries=1 with a zero back-off (policy or eager m.retry(0))",
+                "publisher confirm": "before or after the redelivery reaches the consumer", "retry outcome": "fails or succeeds"},
+        functions=["connections/rabbitmq/message_broker.py:RabbitMessageBroker.requeue", "connections/rabbitmq/consumer.py:_RabbitConsumer.on_new_message"],
+        covers=["rabbit-retry"], stubs=["fake AMQP server"]),
     Harness(
         name="H02-worker-serial", scenario=h02_worker, workers=16, budget_s=900, tiers=("thorough",),
         params={"thorough": {"eager_extras": True, "tasks_limit": 1}},
